@@ -235,6 +235,79 @@ def skip_empty_work(node):
     return True
 
 
+def count_canon(test, fn):
+    """A test on the *number* of rows a condition selects, written back as the mask test it is equivalent to:
+         c == 0 -> not np.any(C)    c > 0, c != 0, c -> np.any(C)    c == n -> np.all(C)    c < n, c != n -> not np.all(C)
+       with c = len(I) / len(I[0]) / I.size / I[0].size / np.count_nonzero(C) / C.sum()  (I = np.nonzero(C) / np.flatnonzero(C) / np.where(C), bound once),
+            n = M.size / len(M) / M.shape[0] for a mask M of the batch;   any(~m) = not all(m), all(~m) = not any(m).
+       -> ('any' | 'all', mask expression, polarity) or None"""
+    defs = {}
+    for a in ast.walk(fn):
+        if isinstance(a, ast.Assign) and len(a.targets) == 1 and isinstance(a.targets[0], ast.Name):
+            defs.setdefault(a.targets[0].id, []).append(a.value)
+
+    def once(e):
+        while isinstance(e, ast.Name) and len(defs.get(e.id, [])) == 1:
+            e = defs[e.id][0]
+        return e
+
+    def index_cond(e):
+        e = once(e)
+        if isinstance(e, ast.Subscript) and isinstance(e.slice, ast.Constant) and e.slice.value == 0:
+            e = once(e.value)
+        if isinstance(e, ast.Call) and getattr(e.func, "attr", "") in ("flatnonzero", "nonzero", "where", "argwhere") and len(e.args) == 1 and not e.keywords:
+            return e.args[0]
+        return None
+
+    def count_of(e):
+        e = once(e)
+        if isinstance(e, ast.Call) and ast.unparse(e.func) == "len" and len(e.args) == 1:
+            return index_cond(e.args[0])
+        if isinstance(e, ast.Attribute) and e.attr == "size":
+            return index_cond(e.value)
+        if isinstance(e, ast.Call) and ast.unparse(e.func) == "np.count_nonzero" and len(e.args) == 1 and not e.keywords:
+            return e.args[0]
+        if isinstance(e, ast.Call) and isinstance(e.func, ast.Attribute) and e.func.attr == "sum" and not e.args and not e.keywords:
+            return e.func.value
+        return None
+
+    def is_total(e):
+        e = once(e)
+        if isinstance(e, ast.Attribute) and e.attr == "size" and isinstance(e.value, ast.Name):
+            return True
+        if isinstance(e, ast.Call) and ast.unparse(e.func) == "len" and len(e.args) == 1 and isinstance(e.args[0], ast.Name) and index_cond(e.args[0]) is None:
+            return True
+        return isinstance(e, ast.Subscript) and isinstance(e.value, ast.Attribute) and e.value.attr == "shape" and isinstance(e.slice, ast.Constant) and e.slice.value == 0
+    pol = True
+    t = test
+    while isinstance(t, ast.UnaryOp) and isinstance(t.op, ast.Not):
+        t, pol = t.operand, not pol
+    kind = cond = None
+    if count_of(t) is not None and not isinstance(t, ast.Compare):
+        kind, cond = "any", count_of(t)
+    elif isinstance(t, ast.Compare) and len(t.ops) == 1:
+        a, op, b = t.left, type(t.ops[0]), t.comparators[0]
+        mirror = {ast.Lt: ast.Gt, ast.Gt: ast.Lt, ast.LtE: ast.GtE, ast.GtE: ast.LtE}
+        if count_of(a) is None and count_of(b) is not None:
+            a, b, op = b, a, mirror.get(op, op)
+        c = count_of(a)
+        if c is not None:
+            zero = isinstance(b, ast.Constant) and b.value == 0 and not isinstance(b.value, bool)
+            if zero and op in (ast.Eq, ast.LtE):
+                kind, cond, pol = "any", c, not pol
+            elif zero and op in (ast.Gt, ast.NotEq):
+                kind, cond = "any", c
+            elif is_total(b) and op in (ast.Eq, ast.GtE):
+                kind, cond = "all", c
+            elif is_total(b) and op in (ast.Lt, ast.NotEq):
+                kind, cond, pol = "all", c, not pol
+    if kind is None:
+        return None
+    while isinstance(cond, ast.UnaryOp) and isinstance(cond.op, ast.Invert):
+        cond, kind, pol = cond.operand, ("all" if kind == "any" else "any"), not pol      # any(~m) = not all(m)
+    return kind, cond, pol
+
+
 def group_by_loop(fn, call):
     """`for v in np.unique(A)[.tolist()]:` whose body selects the rows with `A == v` and writes only under that selection: evaluation
     group by group.  Which groups exist depends on the batch, what a row receives does not (a value that does not occur selects no row).
@@ -456,6 +529,10 @@ def k1_k2(repo, res):
                 t_ = n.test
                 while isinstance(t_, ast.UnaryOp) and isinstance(t_.op, ast.Not) and isinstance(n, ast.If) and n.orelse:
                     t_ = t_.operand          # `if not c: B else: A` is the site `if c: A else: B`
+                cc = count_canon(t_, fn)
+                if cc is not None:
+                    # a test on the number of selected rows is the mask test it is equivalent to (sites are polarity-insensitive)
+                    t_ = ast.Call(func=ast.Attribute(value=ast.Name(id="np", ctx=ast.Load()), attr=cc[0], ctx=ast.Load()), args=[cc[1]], keywords=[])
                 key = (fname, site_canon(shape(_expand_names(t_, fn))))
                 key = _moved(key, m, K1_TRIAGED, mod_of)
                 n1 += 1
